@@ -16,6 +16,6 @@ CONSTANTS
   KeyShards <- MCKeyShards
   FaultBudget = 0
 VIEW View
-INVARIANTS InvDirValid InvDebris InvHandle InvNoErr InvOneCopy
+INVARIANTS InvDirValid InvDebris InvHandle InvNoErr InvOneCopy InvFdBound InvNoResidue
 PROPERTIES StepImmutable StepReadOnlyFirst StepRemoval StepGetLin
 CHECK_DEADLOCK FALSE
